@@ -2604,19 +2604,24 @@ class AggregateBase(UnitsManaged, Saveable, OpenSystem):
         rho0 = numpy.zeros((dim, dim),dtype=numpy.complex128)
 
 
+        # FIXME: we assume only single exciton band
+
+        ens = numpy.zeros(dim-start, dtype=numpy.float64)
+
+        # we specify the basis from outside. This allows to choose
+        # canonical equilibrium in arbitrary basis
+        for i in range(start, dim):
+            ens[i-start] = numpy.real(HH[i,i] - subtract[i-start])
+
+        # energies are counted from the lowest level so that the Boltzmann
+        # factors cannot underflow to 0/0 (or overflow) at low temperatures
+        ens = ens - numpy.amin(ens)
+
         if temp == 0.0:
-            rho0[start,start] = 1.0
+            # zero temperature limit: the lowest level is populated
+            rho0[start+numpy.argmin(ens),start+numpy.argmin(ens)] = 1.0
 
         else:
-            # FIXME: we assume only single exciton band
-
-            ens = numpy.zeros(dim-start, dtype=numpy.float64)
-
-            # we specify the basis from outside. This allows to choose
-            # canonical equilibrium in arbitrary basis
-            for i in range(start, dim):
-                ens[i-start] = numpy.real(HH[i,i] - subtract[i-start])
-
             ne = numpy.exp(-ens/kBT)
             sne = numpy.sum(ne)
             rho0_diag = ne/sne
